@@ -446,6 +446,20 @@ def taint(F, R, root_adts):
                         exc = EXCEPTIONS.get((n[2][1][1], fld)) or EXCEPTIONS.get((n[2][1][1], '*'))
                         findings += 1
                         R.ob('TAINT', 'TAINT::%s::%s.%s' % (fnkey(f), n[2][1][1], fld), exc is not None, 'an address converted to an integer (L%s) is stored into field `%s` of shared-memory type %s%s' % (tainted[o[1][0]].line, fld, n[2][1][1], ' [excepted: %s]' % exc[1] if exc else ''), s.where, f)
+            # field write through self: `self.field = <address as integer>` in a method of a shared-memory type
+            if s.i != 'T' and n[0] == 'a' and len(n[1]) >= 2 and isinstance(n[1][-1], str) and n[1][-1].startswith('.') and n[1][0] == 1 \
+                    and f.impl and f.impl.get('self_adt') in root_adts and not s.macro:
+                src_ = None
+                if n[2][0] == 'use' and n[2][1][0] in ('c', 'm') and n[2][1][1][0] in tainted:
+                    src_ = tainted[n[2][1][1][0]]
+                elif n[2][0] == 'cast' and n[2][1] in PTR2INT:
+                    src_ = s
+                if src_ is not None:
+                    fld = n[1][-1][1:]
+                    adt_ = f.impl.get('self_adt')
+                    exc = EXCEPTIONS.get((adt_, fld)) or EXCEPTIONS.get((adt_, '*'))
+                    findings += 1
+                    R.ob('TAINT', 'TAINT::%s::%s.%s' % (fnkey(f), adt_, fld), exc is not None, 'an address converted to an integer (L%s) is assigned to field `%s` of shared-memory type %s%s' % (src_.line, fld, adt_, ' [excepted: %s]' % exc[1] if exc else ''), s.where, f)
     R.floor('pointer->integer sources tracked', n_src, 20)
     R.ob('TAINT', 'TAINT::summary', True, '%d pointer->integer sources tracked; %d reach a shared-memory type (all through exception rows)' % (n_src, findings), '')
 
@@ -538,6 +552,21 @@ def offsets_cross_boundary(F, R):
         R.floor('RelocatablePointer::init bodies', len(ini), 1)
 
 
+def alignment_bound(F, R):
+    """The shared-memory allocators align their first chunk on the creator's ABSOLUTE address; that is position independent only for
+    alignments up to the mapping granularity.  The guard value handed to ShmAllocator::new_uninit (max alignment supported by the memory)
+    must be the page size: any larger value admits alignments whose residue differs between two mappings of the same segment."""
+    n = 0
+    for s_ in F.callers_of(r'shm_allocator::ShmAllocator::new_uninit$'):
+        f = s_.fn
+        if not f.crate.startswith('iceoryx2_cal') or 'shared_memory' not in f.id:
+            continue
+        n += 1
+        t = sym_nstr(sym(f, s_.args[0]))
+        R.ob('CONST-ARG', 'CONST-ARG::%s::max-alignment-is-the-page-size' % fnkey(f), 'SystemInfo::PageSize' in t, 'ShmAllocator::new_uninit(max_supported_alignment_by_memory = %s, ..); required SystemInfo::PageSize' % t[:120], s_.where, f)
+    R.floor('shared memory builders constructing their allocator', n, 1)
+
+
 def check(F, R, tier):
     excepted = type_walk(F, R)
     exception_obligations(F, R, excepted)
@@ -545,6 +574,7 @@ def check(F, R, tier):
     taint(F, R, roots)
     relocatable_protocol(F, R)
     offsets_cross_boundary(F, R)
+    alignment_bound(F, R)
 
 
 LEVEL_TEXT = ("Decides at the type level that no type placed in shared memory (every ZeroCopySend / RelocatableContainer implementor, including "
